@@ -87,8 +87,11 @@ CText(e, prec) ==
                 nt  == Concat([i \in 1..Len(neg) |->
                                   << Pt("-") >> \o CText(NegProd(neg[i]), PREC_PRODUCT)])
             IN ParenIf(pt \o nt, prec, PREC_SUM)
-      \* CCodeMapper.map_product: no force_parens_around, no sorting
-      [] e.t = "Product" -> NaryText(e, "*", PREC_PRODUCT, prec)
+      \* CCodeMapper.map_product: force_parens_around quotient-like factors (since 9976f2e), no sorting
+      [] e.t = "Product" ->
+            ParenIf(JoinToks([i \in 1..Len(e.c) |->
+                                ForceRec(e.c[i], PREC_PRODUCT, {"Quotient", "FloorDiv", "Remainder"})], "*"),
+                    prec, PREC_PRODUCT)
       [] e.t \in {"Quotient", "Remainder"} ->
             ParenIf(ForceRec(e.a, PREC_PRODUCT, Multiplicative)
                     \o << Pt(IF e.t = "Quotient" THEN "/" ELSE "%") >>
@@ -100,7 +103,9 @@ CText(e, prec) ==
       [] e.t = "Power" ->
             IF IsConstE(e.b) /\ ConstIs(e.b, 0) THEN << Numt(IntV(1)) >>
             ELSE IF IsConstE(e.b) /\ ConstIs(e.b, 1) THEN CText(e.a, prec)
-            ELSE IF IsConstE(e.b) /\ ConstIs(e.b, 2) THEN CText(MulSelf(e.a), prec)
+            \* base*base is a product of its own under a multiplicative operator (since c984897)
+            ELSE IF IsConstE(e.b) /\ ConstIs(e.b, 2)
+                 THEN CText(MulSelf(e.a), IF prec >= PREC_PRODUCT THEN PREC_POWER ELSE prec)
             ELSE << Idt("pow"), Pt("(") >> \o CText(e.a, PREC_NONE) \o << Pt(",") >>
                  \o CText(e.b, PREC_NONE) \o << Pt(")") >>
       [] e.t = "LShift" -> BinText(e, "<<", PREC_SHIFT + 1, PREC_SHIFT + 1, PREC_SHIFT, prec)
@@ -109,7 +114,8 @@ CText(e, prec) ==
       [] e.t = "BitOr"  -> NaryText(e, "|", PREC_BITWISE_OR, prec)
       [] e.t = "BitXor" -> NaryText(e, "^", PREC_BITWISE_XOR, prec)
       [] e.t = "BitAnd" -> NaryText(e, "&", PREC_BITWISE_AND, prec)
-      [] e.t = "Cmp" -> BinText(e, e.op, PREC_COMPARISON, PREC_COMPARISON, PREC_COMPARISON, prec)
+      \* CCodeMapper.map_comparison: C's precedences (since 5fa221d) - operands at PREC_SHIFT
+      [] e.t = "Cmp" -> BinText(e, e.op, PREC_SHIFT, PREC_SHIFT, PREC_COMPARISON, prec)
       [] e.t = "LogNot" -> ParenIf(<< Pt("!") >> \o CText(e.a, PREC_UNARY), prec, PREC_UNARY)
       [] e.t = "LogAnd" -> NaryText(e, "&&", PREC_LOGICAL_AND, prec)
       [] e.t = "LogOr"  -> NaryText(e, "||", PREC_LOGICAL_OR, prec)
